@@ -859,6 +859,8 @@ class Message:
         self.encrypted_payloads = encrypted_payloads
         self.crypto = crypto
         self.iv = iv
+        # True only for messages that Message.parse got out of a SK payload whose checksum it verified
+        self.protected = False
         if self.crypto is not None and self.iv is None:
             self.iv = self.crypto.cipher.generate_iv()
 
@@ -942,6 +944,7 @@ class Message:
                 # parse decrypted payloads and remove Payload SK
                 message.iv, decrypted_data = payload_sk.decrypt(crypto)
                 message.encrypted_payloads = cls._parse_payloads(decrypted_data, payload_sk.next_payload_type)
+                message.protected = True
 
         return message
 
